@@ -19,6 +19,13 @@ package comp
 //   readheld P K attach J | readheld P K detach J
 //                     peer P's read is held while it renders entity K (a gate in K's Information()); meanwhile
 //                     AddEntity / RemoveEntity of slot J runs; then the read is released
+//   rhold P K         peer P's read starts and is held when it is about to render entity K (gate in K's Information(),
+//                     i.e. after every entity before K was rendered with its features, before K's Features() is taken);
+//                     if K is not part of the device the read runs to its end. While a read is held every op except
+//                     renew / readheld / rhold runs as usual (model: events of Spine/LocalTreeRead.lean)
+//   rmove K           the held read goes on and is held again when it is about to render K (or runs to its end)
+//   rrelease          the held read runs to its end; the reply is compared with the model's and judged by the
+//                     sandwich monitor (entities of the start; every feature between its state at the start and now)
 // Concurrent feature creation (second part, model Spine.Feat):
 //   get OP T R        GetOrAddFeature nothing overlaps     nextid   NextFeatureId
 //   lookup OP T R     start GetOrAddFeature in goroutine OP and let it run to the yield point after the missed lookup
@@ -320,6 +327,140 @@ type ltrBk struct {
 	subs     map[int]bool
 }
 
+// snapshot: a deep copy of what was declared (objects shared)
+func (b *ltrBk) snapshot() *ltrBk {
+	c := &ltrBk{pool: map[int]*ltrBkEnt{}, attached: append([]int{}, b.attached...), subs: map[int]bool{}}
+	for k, e := range b.pool {
+		ce := &ltrBkEnt{etype: e.etype, maxID: e.maxID}
+		for _, f := range e.feats {
+			cf := &ltrBkFeat{id: f.id, typ: f.typ, role: f.role, descr: f.descr, fns: map[int][2]bool{}, obj: f.obj}
+			for fn, rw := range f.fns {
+				cf.fns[fn] = rw
+			}
+			ce.feats = append(ce.feats, cf)
+		}
+		c.pool[k] = ce
+	}
+	return c
+}
+
+// ltrOvl: a detailed-discovery read that is held in the middle of its walk while the application goes on adding
+// features, functions and descriptions (SPEC side: what was declared when the read started, and every description a
+// feature carried since).
+type ltrOvl struct {
+	p        int
+	ctr      uint64 // message counter of the read datagram
+	start    *ltrBk
+	descrs   map[string][]string // slot/feature number -> descriptions set or given since the read started
+	release  chan struct{}       // closing it lets the read go on
+	readDone chan any
+}
+
+func (o *ltrOvl) sawDescr(k, id int, d string) {
+	key := fmt.Sprintf("%d/%d", k, id)
+	o.descrs[key] = append(o.descrs[key], d)
+}
+
+// judge: the SPEC of a reply whose read overlapped additions, without the model. The read takes the entity list
+// once, at its start; every entity's feature list and every feature's functions and description are taken at some
+// moment between the start of the read and its end; features and functions are only ever added and a function
+// keeps the operations of its first addition. So: the entities are those of the start (with their types); every
+// feature declared at the start is listed, with every function it had then; every listed feature is declared by
+// now, with its type and role, with no function that is not declared by now and every function with the declared
+// operations; its description is one the feature carried at some moment since the start.
+func (o *ltrOvl) judge(r *h.Report, end *ltrBk, gotE []string, views []ltrFeatView, done []string) {
+	fail := func(key, detail string) { r.SpecFail("C07/"+key, done, detail) }
+	var wantE []string
+	for _, k := range o.start.attached {
+		wantE = append(wantE, fmt.Sprintf("%d:%d", k, o.start.pool[k].etype))
+	}
+	ge := append([]string{}, gotE...)
+	sort.Strings(ge)
+	sort.Strings(wantE)
+	if strings.Join(ge, ",") != strings.Join(wantE, ",") {
+		fail("overlapped-read-entities-differ", fmt.Sprintf("reply lists entities {%s}, the device had {%s} when the read started", strings.Join(ge, ","), strings.Join(wantE, ",")))
+		return
+	}
+	find := func(b *ltrBk, k, id int) *ltrBkFeat {
+		if e := b.pool[k]; e != nil {
+			for _, x := range e.feats {
+				if x.id == id {
+					return x
+				}
+			}
+		}
+		return nil
+	}
+	got := map[string]ltrFeatView{}
+	for _, v := range views {
+		got[fmt.Sprintf("%d/%d", v.slot, v.id)] = v
+	}
+	for _, k := range o.start.attached {
+		for _, sf := range o.start.pool[k].feats {
+			v, ok := got[fmt.Sprintf("%d/%d", k, sf.id)]
+			if !ok {
+				fail("overlapped-read-misses-earlier-feature", fmt.Sprintf("feature %d/%d existed when the read started and is not in the reply", k, sf.id))
+				continue
+			}
+			for fn, rw := range sf.fns {
+				if g, has := v.fns[fn]; !has || g != rw {
+					fail("overlapped-read-misses-earlier-function", fmt.Sprintf("feature %d/%d had function %d when the read started; the reply does not list it with those operations", k, sf.id, fn))
+				}
+			}
+		}
+	}
+	sameStart, sameEnd := true, true
+	for key, v := range got {
+		ef := find(end, v.slot, v.id)
+		if ef == nil || ef.typ != v.typ || ef.role != v.role {
+			fail("overlapped-read-shows-undeclared-feature", fmt.Sprintf("reply lists feature %s (type %d role %d) that was not declared so", key, v.typ, v.role))
+			continue
+		}
+		for fn, rw := range v.fns {
+			if d, has := ef.fns[fn]; !has || d != rw {
+				fail("overlapped-read-shows-undeclared-function", fmt.Sprintf("reply lists function %d on feature %s with operations that were not declared", fn, key))
+			}
+		}
+		okD := v.descr == ef.descr
+		sf := find(o.start, v.slot, v.id)
+		if sf != nil && sf.descr == v.descr {
+			okD = true
+		}
+		for _, x := range o.descrs[key] {
+			if x == v.descr {
+				okD = true
+			}
+		}
+		if !okD {
+			fail("overlapped-read-description-never-set", fmt.Sprintf("reply describes feature %s as %q, which it never carried since the read started", key, v.descr))
+		}
+		if sf == nil || sf.specStr() != v.specStr() {
+			sameStart = false
+		}
+		if ef.specStr() != v.specStr() {
+			sameEnd = false
+		}
+	}
+	nStart, nEnd := 0, 0
+	for _, k := range o.start.attached {
+		nStart += len(o.start.pool[k].feats)
+		nEnd += len(end.pool[k].feats)
+	}
+	sameStart = sameStart && nStart == len(got)
+	sameEnd = sameEnd && nEnd == len(got)
+	cls := "mixture" // observation, not judged: a read is not one critical section; with two or more overlapping
+	// additions the reply can be a mixture no single moment had (Spine.Props.C07 c07_overlapped_read_not_atomic)
+	switch {
+	case sameStart && sameEnd:
+		cls = "nothing-visible-changed"
+	case sameStart:
+		cls = "is-the-start"
+	case sameEnd:
+		cls = "is-the-end"
+	}
+	r.Dist["overlap-reply:"+cls]++
+}
+
 func (b *ltrBk) isAttached(k int) bool {
 	for _, x := range b.attached {
 		if x == k {
@@ -351,17 +492,41 @@ type ltrPeer struct {
 // the middle of its walk over the entities (AddEntity accepts any api.EntityLocalInterface).
 type ltrGate struct {
 	*spine.EntityLocal
-	armed   atomic.Bool
-	entered chan struct{}
-	release chan struct{}
+	armed    atomic.Bool
+	entered  chan struct{}
+	release  chan struct{}
+	skipKind atomic.Int32  // 'I' / 'F': the half of the visit that passes without a hold (0 = none)
+	skipGo   atomic.Uint64 // … for this goroutine only
+}
+
+// hold pauses the caller once if the gate is armed. A visit of the walk asks the entity for Information() and for
+// Features(), in either order: the read is held at whichever comes first — "about to render the entity" does not
+// depend on the order in which the walk takes the two — and the other half of the same visit (same goroutine, the
+// other kind, directly after the hold) passes even if the harness has re-armed this very gate in the meantime.
+func (g *ltrGate) hold(kind byte) {
+	if g.skipKind.Load() == int32(kind) && g.skipGo.Load() == h.GoID() {
+		g.skipKind.Store(0)
+		return
+	}
+	if g.armed.CompareAndSwap(true, false) {
+		// take the release channel BEFORE announcing the entry: the harness may re-arm this very gate (rmove to the
+		// entity the read is held at) as soon as it has seen the entry
+		rel := g.release
+		g.skipGo.Store(h.GoID())
+		g.skipKind.Store(int32('I' + 'F' - kind))
+		close(g.entered)
+		<-rel
+	}
 }
 
 func (g *ltrGate) Information() *model.NodeManagementDetailedDiscoveryEntityInformationType {
-	if g.armed.CompareAndSwap(true, false) {
-		close(g.entered)
-		<-g.release
-	}
+	g.hold('I')
 	return g.EntityLocal.Information()
+}
+
+func (g *ltrGate) Features() []api.FeatureLocalInterface {
+	g.hold('F')
+	return g.EntityLocal.Features()
 }
 
 type ltrWorld struct {
@@ -569,9 +734,149 @@ func runLtrHistory(r *h.Report, d *h.Driver, ops []string) {
 	}
 	monitor := true
 	var done []string
+	// ---- a read held in the middle of its walk (rhold / rmove / rrelease)
+	var ov *ltrOvl
+	defer func() {
+		if ov != nil && ov.release != nil { // history ended (or was abandoned) with the read still held: let it finish
+			close(ov.release)
+			select {
+			case <-ov.readDone:
+			case <-time.After(5 * time.Second):
+			}
+		}
+	}()
+	arm := func(k int) *ltrGate {
+		g := lw.gs[k]
+		g.entered, g.release = make(chan struct{}), make(chan struct{})
+		g.armed.Store(true)
+		return g
+	}
+	// overlapStep performs rhold / rmove / rrelease; false = stop this history
+	overlapStep := func(op string, f []string) bool {
+		for p := range lw.peers {
+			lw.peers[p].w.Take()
+		}
+		kind := f[0]
+		var g *ltrGate
+		switch {
+		case f[0] == "rhold" && len(f) == 3 && ov == nil:
+			pk := ltrAtoi(f[1:])
+			if pk[0] < 0 || pk[0] >= len(lw.peers) || pk[1] < 1 || pk[1] >= len(ltrSlots) {
+				panic("bad op " + op)
+			}
+			g = arm(pk[1])
+			ov = &ltrOvl{p: pk[0], ctr: lw.peers[pk[0]].ctr + 1, start: bk.snapshot(), descrs: map[string][]string{}, readDone: make(chan any, 1)}
+			o := ov
+			go func() {
+				o.readDone <- h.Recover(func() {
+					lw.send(o.p, model.CmdClassifierTypeRead, nil, false, model.CmdType{NodeManagementDetailedDiscoveryData: &model.NodeManagementDetailedDiscoveryDataType{}})
+				})
+			}()
+		case f[0] == "rmove" && len(f) == 2 && ov != nil:
+			k := ltrAtoi(f[1:])[0]
+			if k < 1 || k >= len(ltrSlots) {
+				panic("bad op " + op)
+			}
+			old := ov.release
+			g = arm(k)
+			ov.release = nil
+			close(old)
+		case f[0] == "rrelease" && len(f) == 1 && ov != nil:
+			old := ov.release
+			ov.release = nil
+			close(old)
+		default:
+			// not applicable here (a shrunk or hand-written history): not executed, not sent to the model
+			r.Eval(f[0]+":ignored", "")
+			return true
+		}
+		done = append(done, op)
+		finished := false
+		var pan any
+		var entered chan struct{}
+		if g != nil {
+			entered = g.entered
+		}
+		select {
+		case <-entered:
+			ov.release = g.release
+			kind += ":held"
+		case pan = <-ov.readDone:
+			finished = true
+			if g != nil {
+				g.armed.Store(false)
+				kind += ":finished"
+			}
+		case <-time.After(5 * time.Second):
+			panic(op + ": the read neither reached the gate nor finished")
+		}
+		if pan != nil {
+			ov = nil
+			r.SpecFail("C07/panic", done, fmt.Sprintf("%s panicked: %v", op, pan))
+			return false
+		}
+		var obs []string
+		for p := range lw.peers {
+			rc := lw.take(p)
+			for _, o := range rc.other {
+				obs = append(obs, fmt.Sprintf("X %d %s", p, o))
+			}
+			for i := 0; i < rc.ucN; i++ {
+				obs = append(obs, fmt.Sprintf("U %d", p))
+			}
+			for _, c := range rc.notifies {
+				s, _, _, _, _ := ltrNotifyStr(p, c)
+				obs = append(obs, s)
+			}
+			for range rc.dests {
+				obs = append(obs, fmt.Sprintf("L %d unexpected", p))
+			}
+			wantReplies := 0
+			if finished && p == ov.p && !fails[p] {
+				wantReplies = 1
+			}
+			if monitor && len(rc.replies) != wantReplies {
+				r.SpecFail("C07/discovery-reply-count", done, fmt.Sprintf("after %s peer %d received %d discovery replies", op, p, len(rc.replies)))
+			}
+			for _, dg := range rc.replies {
+				obs = append(obs, ltrReply(r, lw, bk, p, dg, monitor, done, nil, ov))
+			}
+		}
+		if finished {
+			ov = nil
+		}
+		impl := ltrSortJoin(obs)
+		want := d.Ask(op)
+		if want != "-" {
+			want = ltrSortJoin(strings.Split(want, " ; "))
+		}
+		r.Eval(kind, "")
+		if impl != want {
+			r.Mismatch(done, impl, want, "tree op "+op)
+			return false
+		}
+		return true
+	}
 	for i, op := range ops {
 		f := strings.Fields(op)
 		if len(f) == 0 {
+			continue
+		}
+		if f[0] == "rhold" || f[0] == "rmove" || f[0] == "rrelease" {
+			if !overlapStep(op, f) {
+				return
+			}
+			continue
+		}
+		if ov != nil && f[0] == "readheld" && len(f) == 5 {
+			// a second held read while a read is held: only its AddEntity / RemoveEntity is performed
+			f = f[3:]
+			op = strings.Join(f, " ")
+		}
+		if ov != nil && f[0] == "renew" {
+			// a fresh object for a slot while a read is held: outside the model of the overlapped read (the read
+			// keeps the objects it has taken); not executed, not sent to the model
+			r.Eval(f[0]+":ignored-during-read", "")
 			continue
 		}
 		if f[0] == "world" {
@@ -739,6 +1044,9 @@ func runLtrHistory(r *h.Report, d *h.Driver, ops []string) {
 						be.maxID = id
 					}
 					be.feats = append(be.feats, &ltrBkFeat{id: id, typ: t, role: ro, descr: ltrDefaultDescr(t, ro), fns: map[int][2]bool{}, obj: fo})
+					if ov != nil {
+						ov.sawDescr(k, id, ltrDefaultDescr(t, ro))
+					}
 				}
 			}
 		case "next":
@@ -771,6 +1079,9 @@ func runLtrHistory(r *h.Report, d *h.Driver, ops []string) {
 				fo.SetDescriptionString(fmt.Sprintf("custom-%d", a[2]))
 				if bf != nil {
 					bf.descr = fmt.Sprintf("custom-%d", a[2])
+				}
+				if ov != nil {
+					ov.sawDescr(k, fid, fmt.Sprintf("custom-%d", a[2]))
 				}
 				break
 			}
@@ -954,7 +1265,7 @@ func runLtrHistory(r *h.Report, d *h.Driver, ops []string) {
 				if held {
 					alts = [][]int{before}
 				}
-				obs = append(obs, ltrReply(r, lw, bk, p, dg, monitor, done, alts))
+				obs = append(obs, ltrReply(r, lw, bk, p, dg, monitor, done, alts, nil))
 			}
 		}
 		if f[0] == "adduc" {
@@ -977,6 +1288,9 @@ func runLtrHistory(r *h.Report, d *h.Driver, ops []string) {
 			nt = impl
 		}
 		r.Eval(kind, nt)
+		if ov != nil {
+			ltrOvlOps++
+		}
 		if impl != want {
 			r.Mismatch(done, impl, want, "tree op "+op)
 			return
@@ -986,7 +1300,7 @@ func runLtrHistory(r *h.Report, d *h.Driver, ops []string) {
 }
 
 // ltrReply renders a discovery reply in the model's format and lets the monitor compare it with the bookkeeping.
-func ltrReply(r *h.Report, lw *ltrWorld, bk *ltrBk, p int, dg model.DatagramType, monitor bool, done []string, alts [][]int) string {
+func ltrReply(r *h.Report, lw *ltrWorld, bk *ltrBk, p int, dg model.DatagramType, monitor bool, done []string, alts [][]int, ov *ltrOvl) string {
 	dd := dg.Payload.Cmd[0].NodeManagementDetailedDiscoveryData
 	fail := func(key, detail string) {
 		if monitor {
@@ -1016,8 +1330,10 @@ func ltrReply(r *h.Report, lw *ltrWorld, bk *ltrBk, p int, dg model.DatagramType
 		}
 	}
 	seen := map[string]bool{}
+	var views []ltrFeatView
 	for _, fi := range dd.FeatureInformation {
 		v := ltrViewOf(fi)
+		views = append(views, v)
 		fs = append(fs, fmt.Sprintf("%d/%s", v.slot, v.modelStr()))
 		gotF = append(gotF, fmt.Sprintf("%d/%s", v.slot, v.specStr()))
 		if bad := v.partialOK(); bad != "" {
@@ -1029,7 +1345,7 @@ func ltrReply(r *h.Report, lw *ltrWorld, bk *ltrBk, p int, dg model.DatagramType
 		}
 		seen[key] = true
 		// every announced address resolves back to that feature (for an entity that is part of the device now)
-		if monitor && v.addr != nil && (alts == nil || bk.isAttached(v.slot)) {
+		if monitor && v.addr != nil && ((alts == nil && ov == nil) || bk.isAttached(v.slot)) {
 			fo := lw.l.FeatureByAddress(v.addr)
 			var bf *ltrBkFeat
 			if be := bk.pool[v.slot]; v.slot >= 0 && be != nil {
@@ -1044,7 +1360,13 @@ func ltrReply(r *h.Report, lw *ltrWorld, bk *ltrBk, p int, dg model.DatagramType
 			}
 		}
 	}
-	if monitor {
+	if monitor && ov != nil {
+		ov.judge(r, bk, gotE, views, done)
+		hd := dg.Header
+		if hd.MsgCounterReference == nil || uint64(*hd.MsgCounterReference) != ov.ctr {
+			fail("reply-wrong-reference", "discovery reply does not reference the read")
+		}
+	} else if monitor {
 		sort.Strings(gotE)
 		sort.Strings(gotF)
 		okE, okF := false, false
@@ -1265,6 +1587,113 @@ func ltrGenHistory(rng *rand.Rand, n int) []string {
 	emit("read 1")
 	emit("read 0")
 	return ops
+}
+
+// ---- reads overlapping additions
+
+var ltrOvlOps int // ops performed while a read was held (generator floor)
+
+// ltrOverlapBlock: corpus, an exhaustive grid and random histories in which a detailed-discovery read is held at an
+// entity boundary (once or twice) while the application adds features, functions, descriptions and entities.
+func ltrOverlapBlock(r *h.Report, d *h.Driver) {
+	ltrOvlOps = 0
+	base := []string{"sub 0", "renew 1 1", "renew 2 2", "renew 4 3", "feat 1 0 1", "fn 1 1 0 1 1", "feat 2 1 1", "fn 2 1 2 1 0", "attach 1", "attach 2"}
+	with := func(xs ...string) []string { return append(append([]string{}, base...), xs...) }
+	corpus := [][]string{
+		// the mixture: the read has rendered [1], then [1] and [2] each get a feature; the reply shows the later one only
+		with("rhold 1 2", "feat 1 2 1", "feat 2 3 1", "rrelease", "read 1"),
+		// one addition: the reply is the tree before or after it
+		with("rhold 1 2", "feat 1 2 1", "rrelease", "rhold 1 2", "fn 2 1 2 1 1", "fn 2 1 0 0 1", "rrelease", "rhold 0 1", "descr 1 1 2", "rrelease", "read 2"),
+		// held twice; the second hold point lies behind / before the first; entity not part of the device
+		with("rhold 2 1", "fn 2 1 3 1 1", "rmove 2", "fn 1 1 1 1 1", "feat 2 0 0", "rrelease", "rhold 2 2", "rmove 1", "rhold 0 4", "read 0"),
+		// entities added and removed while the read is held: the entity list is the one of the start
+		with("rhold 1 1", "detach 2", "attach 4", "feat 4 0 1", "rmove 2", "feat 2 3 1", "rrelease", "read 1", "rhold 1 4", "detach 4", "feat 4 2 1", "rrelease", "read 1"),
+		// a held read of a peer whose connection fails; ops that are not applicable are ignored
+		append([]string{"world 010"}, with("rhold 1 2", "feat 2 3 1", "rrelease", "rrelease", "rmove 1", "rhold 0 1", "rhold 2 1", "renew 1 2", "readheld 1 1 detach 2", "rrelease", "read 0")...),
+		// a history that ends with the read still held
+		with("rhold 1 2", "feat 2 3 1"),
+	}
+	for _, c := range corpus {
+		runLtrHistory(r, d, c)
+	}
+	// exhaustive: hold point x (first addition, second addition) over additions that touch entity [1] / [2], an
+	// existing feature / a new one, functions / descriptions / the entity list; held once or moved on in between
+	adds := []string{"feat 1 2 1", "feat 2 3 1", "fn 1 1 1 1 1", "fn 2 1 3 0 1", "descr 1 1 1", "descr 2 1 2", "attach 4", "detach 1", "next 2"}
+	for _, hold := range []string{"rhold 1 1", "rhold 1 2"} {
+		for _, mv := range []string{"", "rmove 2"} {
+			for _, a := range adds {
+				for _, b := range adds {
+					ops := with(hold, a)
+					if mv != "" {
+						ops = append(ops, mv)
+					}
+					ops = append(ops, b, "rrelease", "read 1")
+					runLtrHistory(r, d, ops)
+				}
+			}
+		}
+	}
+	// random: a generated history with a held read inserted
+	rng := h.Rng(71)
+	nHist := h.Scale(250, 2500)
+	for i := 0; i < nHist; i++ {
+		src := ltrGenHistory(rng, 15+rng.Intn(35))
+		at := len(src)/3 + rng.Intn(len(src)/2+1)
+		attached := map[int]bool{}
+		var ops []string
+		left, moves := -1, 0
+		for j, o := range src {
+			f := strings.Fields(o)
+			if f[0] == "readheld" {
+				f = f[3:]
+			}
+			if len(f) == 2 && f[0] == "attach" {
+				attached[ltrAtoi(f[1:])[0]] = true
+			}
+			if len(f) == 2 && f[0] == "detach" {
+				delete(attached, ltrAtoi(f[1:])[0])
+			}
+			if j == at {
+				var ks []int
+				for k := 1; k < len(ltrSlots); k++ {
+					if attached[k] {
+						ks = append(ks, k)
+					}
+				}
+				k := 1 + rng.Intn(len(ltrSlots)-1)
+				if len(ks) > 0 && rng.Intn(8) > 0 {
+					k = ks[rng.Intn(len(ks))]
+				}
+				ops = append(ops, fmt.Sprintf("rhold %d %d", rng.Intn(3), k))
+				left, moves = 1+rng.Intn(5), rng.Intn(3)
+			}
+			if left == 0 {
+				if moves > 0 {
+					ops = append(ops, fmt.Sprintf("rmove %d", 1+rng.Intn(len(ltrSlots)-1)))
+					left, moves = 1+rng.Intn(3), moves-1
+				} else {
+					ops = append(ops, "rrelease")
+					left = -1
+				}
+			}
+			ops = append(ops, o)
+			if left > 0 {
+				left--
+			}
+		}
+		if rng.Intn(10) > 0 {
+			ops = append(ops, "rrelease") // ignored when no read is held any more
+		}
+		ops = append(ops, "read 2")
+		runLtrHistory(r, d, ops)
+	}
+	if r.MismatchN == 0 {
+		r.Floor("overlapped reads that were held at an entity", r.Dist["rhold:held"], r.Dist["rhold:held"]+r.Dist["rhold:finished"], 0.5)
+		r.Floor("ops performed while a read was held, per held read", ltrOvlOps, r.Dist["rhold:held"], 1.0)
+		nr := r.Dist["overlap-reply:mixture"] + r.Dist["overlap-reply:is-the-start"] + r.Dist["overlap-reply:is-the-end"] + r.Dist["overlap-reply:nothing-visible-changed"]
+		r.Floor("overlapped replies that differ from the tree at the start of the read", r.Dist["overlap-reply:mixture"]+r.Dist["overlap-reply:is-the-end"], nr, 0.15)
+		r.Floor("overlapped replies that are the tree of no single moment", r.Dist["overlap-reply:mixture"], nr, 0.03)
+	}
 }
 
 // ---- concurrent feature creation on one entity (model Spine.Feat)
@@ -1723,6 +2152,12 @@ func TestLocalTree(t *testing.T) {
 		r.Floor("histories with a peer whose connection fails", nw, h.Scale(1500, 15000), 0.30)
 		r.Floor("entity additions and removals overlapping a held read", r.Dist["readheld:attach"]+r.Dist["readheld:detach"], r.Dist["attach"]+r.Dist["detach"]+r.Dist["readheld:attach"]+r.Dist["readheld:detach"], 0.08)
 	}
+
+	// ================= part 1b: reads that overlap feature / function / description additions (Spine/LocalTreeRead.lean)
+	d = h.StartDriver("drv_ltree")
+	ltrSendNames(d)
+	ltrOverlapBlock(r, d)
+	d.Close()
 
 	// ================= part 2: feature creation on one entity, schedules
 	spine.VerifYield = ltrS.Hook
